@@ -70,6 +70,7 @@ func init() {
 	regSpec("effLang", "f_effLang", SInt, SInt)
 	regSpec("wlref", "f_wlref", SInt, SInt)
 	regSpec("acc", "f_acc", SInt, SSeq, SInt, SInt, SInt)
+	regSpec("horner", "f_horner", SInt, SSeq, SInt, SInt)
 	regSpec("is", "f_is", SBool, SErr, SErr)
 	regSpec("msg", "f_msg", SStr, SErr)
 	regSpec("pbkdf2", "f_pbkdf2", SBytes, SBytes, SBytes, SInt, SInt, SInt)
